@@ -14,7 +14,7 @@ def run(chk, tier, seed):
     npats = patsets.name_patterns(tier)
     ppats = patsets.path_patterns(tier)
     fn_flags = [F.E, F.E | F.D, F.E | F.I, 0, F.E | F.W, F.E | F.N, F.E | F.N | F.M | F.A] if tier == 'quick' else [F.E, F.E | F.D, F.E | F.I, 0, F.D, F.E | F.W, F.E | F.C | F.I, F.E | F.N, F.E | F.N | F.M, F.E | F.N | F.A, F.E | F.R]
-    gl_flags = [G.G | G.E, G.E, G.G | G.E | G.D, G.X | G.G | G.E, G.GL | G.E, G.G | G.E | G.O, G.G | G.E | G.Z, G.G | G.E | G.N | G.A, G.G | G.E | G.W]
+    gl_flags = [G.G | G.E, G.E, G.G | G.E | G.D, G.X | G.G | G.E, G.GL | G.E, G.G | G.E | G.O, G.G | G.E | G.Z, G.G | G.E | G.N | G.A, G.G | G.E | G.W, G.G | G.E | G.P]
     for fl in fn_flags:
         for p in npats[:: (2 if tier == 'quick' else 1)]:
             items.append(('C08', 'C08.lang.translate==compile', p, fl | F.U if not fl & F.W else fl, False, 'fnmatch', chk.known))
@@ -29,9 +29,45 @@ def run(chk, tier, seed):
         else:
             items.append(('C08', 'C08.lang.translate==compile', g.path_pattern(3, 3, 1), r.choice(gl_flags) | G.U, r.random() < 0.2, 'glob', chk.known))
     counts, secs = LC.run_items(chk, LC.translate_item, items)
+    empty_exclude_clause(chk)
     chk.rule = ('one case = one (pattern, flags, str|bytes, fnmatch|glob): every regex of translate() compiles, is language-equal (ALL names) to the regex compile_pattern() builds for '
                 'the same call, and has as many capturing groups as the pattern has extended groups (nested ones included); patterns from the C01/C02 sets plus seeded random ones')
     chk.bounds.update(dict(c08_items=len(items), c08_outcomes=counts, worker_seconds=round(secs, 1)))
     chk.sample(dict(pattern='!(a|?(b))c', flags='EXTMATCH', groups=2))
     chk.assume('group i opening where the i-th extended group opens follows from regex syntax (groups are numbered by their opening parenthesis) once the count is right; '
                'the text captured by a group is not compared name by name')
+
+
+def empty_exclude_clause(chk):
+    """translate and the matchers treat `exclude=` alike also when the list is EMPTY (given but empty still switches inline negation off)"""
+    from vlib import relang as R
+    from vlib.common import REPO
+    W = LC.W
+    n = 0
+    for api, nm in ((F, 'fnmatch'), (G, 'glob')):
+        for p in ('!a', 'a', '-a', '!*.txt', ['!a', 'b'], '*'):
+            for fl in (api.N, api.N | api.M, api.N | api.A, api.N | api.E):
+                for ex in ([], '', (), ['b'], None):
+                    n += 1
+                    chk.case(key=('empty-exclude', nm, str(p), fl, str(ex)))
+                    try:
+                        tp, tn = api.translate(p, flags=fl | api.U, exclude=ex)
+                        cp, cn = W.compile_pattern(p, api._flag_transform(fl | api.U), exclude=ex)
+                    except Exception as e:
+                        chk.violation(dict(obligation='C08.bounded.translate==compile_with_exclude', pattern=str(p), exclude=str(ex)), f'{nm}: translate/compile({p!r}, exclude={ex!r}) raised {type(e).__name__}: {e}', None)
+                        continue
+                    bad = None
+                    if (len(tp), len(tn)) != (len(cp), len(cn)):
+                        bad = f'translate returns {len(tp)}+{len(tn)} regexes, the matcher uses {len(cp)}+{len(cn)}'
+                    else:
+                        for a, b in list(zip(tp, cp)) + list(zip(tn, cn)):
+                            r = R.equal(R.Impl(a), R.Impl(b))
+                            if r is not None:
+                                bad = f'regex {a!r} vs {b.pattern!r} differ on {R.to_str(r[0])!r}'
+                                break
+                    if bad:
+                        chk.violation(dict(obligation='C08.bounded.translate==compile_with_exclude', pattern=str(p), exclude=str(ex), fl=LC.flagnames(fl)),
+                                      f'{nm}.translate({p!r}, flags={LC.flagnames(fl)}, exclude={ex!r}): {bad}',
+                                      f"import sys; sys.path.insert(0, {REPO!r})\nfrom wcmatch import {nm}, _wcparse\nprint({nm}.translate({p!r}, flags={fl | api.U}, exclude={ex!r}))\n"
+                                      f"print(_wcparse.compile_pattern({p!r}, {nm}._flag_transform({fl | api.U}), exclude={ex!r}))\nsys.exit(1)\n")
+    chk.bounds.update(dict(c08_exclude_cases=n))
